@@ -101,13 +101,13 @@ def raw_param_id(info: bytes, terms, k) -> int:
     return desc
 
 
-def run_encrypt(ctx, tr, d, key: bytes, keyname, size, seed, kid, halg, via, k):
+def run_encrypt(ctx, tr, d, key: bytes, keyname, size, seed, kid, halg, via, k, out=None):
     es, kms = scripts()
     fw = d / f"fw{k}.bin"
     pt = envgen.blob(size, seed)
     fw.write_bytes(pt)
-    out = d / f"out{k}"
-    out.mkdir()
+    out = out or d / f"out{k}"   # a given directory still holds the artifacts of the previous run
+    out.mkdir(exist_ok=True)
     if via == "cli":
         subprocess.run(core.cli_cmd("encrypt", "encrypt-and-generate", "--firmware", fw, "--key-name", keyname, "--key-id",
                                     hex(kid), "--context", d / "keys", "--hash-alg", halg, "--kw-alg", "direct",
@@ -257,6 +257,19 @@ def run_geninfo(ctx, tr, d, size, seed, kid, via, k):
     ctx.nontriv(("gen", size, hex(kid), via))
 
 
+SAME_DIR = ((100, 1, 7, "sha-256", "cli"), (100, 1, 7, "sha-256", "cli"), (100, 1, 8, "sha-256", "lib"), (100, 1, 8, "sha-256", "lib"),
+            (100, 2, 8, "sha-512", "cli"), (0, 2, 8, "sha-512", "lib"))
+
+
+def same_directory_runs(ctx, tr, d, keys, k, upto):
+    again = d / "again"
+    for n_, (size, sd, kid, halg, via) in enumerate(SAME_DIR[:upto]):
+        k += 1
+        run_encrypt(ctx, tr, d, keys["fwenc"], "fwenc", size, sd, kid, halg, via, k, out=again)
+        tr.scn[tr.tid]["same_output_directory_run"] = n_
+    return k
+
+
 def setup_keys(d):
     (d / "keys").mkdir(parents=True, exist_ok=True)
     keys = {}
@@ -299,6 +312,9 @@ def run(ctx: core.Check):
             k += 1
             run_geninfo(ctx, tr, d, size, k, kid, "cli" if k % 10 == 0 else "lib", k)
     ctx.sample({"scenario": tr.scn[tr.tid], "event": tr.events[-1]})
+    # the same output directory used again (identical firmware, then another key id, then other firmware): what the files say must
+    # describe THIS run, whatever the directory held before
+    k = same_directory_runs(ctx, tr, d, keys, k, len(SAME_DIR))
     # Use B: session histories from TLC (object reuse x context x key name)
     g = tlc.run_tlc("Encrypt_MC", "Encrypt_Gen.cfg", workers=1)
     tlc.require_ok(g, "Encrypt_Gen")
@@ -324,7 +340,9 @@ def replay(ctx, rec):
     d = ctx.tmp("c06r")
     keys = setup_keys(d)
     tr = toolrun.Trace()
-    if scn["kind"] == "session":
+    if "same_output_directory_run" in scn:
+        same_directory_runs(ctx, tr, d, keys, 0, scn["same_output_directory_run"] + 1)   # the history up to and including that run
+    elif scn["kind"] == "session":
         run_session(ctx, tr, d, setup_stores(d), scn["hist"], scn["k"])
     elif scn["kind"] == "enc":
         run_encrypt(ctx, tr, d, keys["fwenc"], "fwenc", scn["size"], scn["seed"], scn["kid"], scn["hash"], scn["via"], 1)
